@@ -20,10 +20,19 @@ CONNECT_OK = b"HTTP/1.1 200 Connection established\r\n\r\n"
 
 def hs_configs(tier):
     cfgs = [("vmess.aes-128-gcm.tcp", {"protocol": "vmess", "cipher": "aes-128-gcm", "transport": "tcp", "client_mode": "tcp"})]
-    if tier == "thorough":
-        cfgs.append(("shadowsocks.2022-blake3-aes-128-gcm.tcp", {"protocol": "shadowsocks", "cipher": "2022-blake3-aes-128-gcm", "transport": "tcp", "client_mode": "tcp"}))
-        cfgs.append(("trojan.-.tls", {"protocol": "trojan", "cipher": None, "transport": "tls", "client_mode": "tcp"}))
+    # the other two protocols: every scenario in the thorough tier, a handful (LITE) in the quick tier - what the handshake leaves
+    # unread becomes the first message of a different codec
+    cfgs.append(("shadowsocks.2022-blake3-aes-128-gcm.tcp", {"protocol": "shadowsocks", "cipher": "2022-blake3-aes-128-gcm", "transport": "tcp", "client_mode": "tcp"}))
+    cfgs.append(("trojan.-.tls", {"protocol": "trojan", "cipher": None, "transport": "tls", "client_mode": "tcp"}))
     return cfgs
+
+
+LITE = ("socks5_ipv4/coalesced", "socks5_domain/early_data_coalesced", "socks5_ipv4/early_data_with_request", "connect_short+payload/whole",
+        "connect_3k+payload/split_before_last_byte", "plain_http/whole", "plain_http/head_3k/split@1024", "malformed/http_origin_form")
+
+
+def _lite_skip(tier, cname, name):
+    return tier == "quick" and not cname.startswith("vmess") and not any(name.endswith("/" + x) for x in LITE)
 
 
 def ipv6_loopback_works():
@@ -85,7 +94,12 @@ def run_positive(name, spec, seed, build):
         return T.deploy_failed([name], spec, e)
     with dep:
         host = spec.get("_target_host", T.LOOPBACK)
-        with T.TcpTarget(host=host) as tgt:
+        try:
+            tgt_cm = T.TcpTarget(host=host, port=spec.get("_target_port", 0))
+        except OSError as e:
+            cfg = {k: v for k, v in spec.items() if not k.startswith("_")}
+            return [T.result(name, cfg, {"skipped": True}, {"skipped": "cannot listen on %s:%s in this sandbox: %r" % (host, spec.get("_target_port", 0), e)}, True, "skipped: target address not available")]
+        with tgt_cm as tgt:
             plan = build(tgt)
             expect["reply"] = {"socks5": "05 00 | 05 00 00 01 <bound addr> (12 bytes)", "connect": CONNECT_OK.decode().strip(), "none": "(nothing)"}[plan["reply"]]
             expect["request"] = plan["describe"]
@@ -108,6 +122,21 @@ def run_positive(name, spec, seed, build):
                     reply, ok_reply = b"", True
                 t_reply = time.monotonic()
                 obs["reply"] = reply.hex() if plan["reply"] == "socks5" else reply.decode("latin-1")
+                if plan.get("may_refuse"):
+                    # a request the client may decline (e.g. a request line longer than it looks at): EITHER it is tunnelled exactly
+                    # as requested (checked below) OR it is refused with an error status and nothing reaches the target
+                    early = T._recv_some(s, 64, 0.7)
+                    if early.startswith(b"HTTP/1.") and _is_error_reply(early):
+                        time.sleep(0.2)
+                        obs.update({"refused_with": early[:40].decode("latin-1"), "target_connections": tgt.count()})
+                        if tgt.count():
+                            problems.append("the request was refused (%r) and yet a connection reached the target" % (early[:30],))
+                        s.close()
+                        obs.update(T.process_state(dep))
+                        cfg = {k: v for k, v in spec.items() if not k.startswith("_")}
+                        return [T.result(name, dict(cfg, request=plan["describe"]), dict(expect, alternative="refused with an HTTP error status, no tunnel"), obs, not problems, "; ".join(problems))]
+                    if early:
+                        problems.append("unexpected bytes from the client before anything was sent by the target: %r" % (early[:40],))
                 if not ok_reply:
                     problems.append("improper reply to the app: %r" % (reply[:60],))
                 app = T.Conn(s, name="app-hs")
@@ -271,6 +300,74 @@ def plain_plans():
 
 
 # ------------------------------------------------------------------------------------------------
+# dimension audit: more of the request grammar (default port, methods, IPv6 / named hosts, long heads and URIs), long pauses
+# ------------------------------------------------------------------------------------------------
+
+def audit_plans(seed):
+    """-> list of (name, build, spec_extra)"""
+    import os as _os
+    plans = []
+
+    def plain(vname, reqf, desc, segf=None, extra=None, may_refuse=False):
+        def build(tgt):
+            d = reqf(tgt)
+            return {"segments": (segf or (lambda x: [x]))(d), "reply": "none", "to_target_first": d, "may_refuse": may_refuse,
+                    "describe": "plain HTTP %s (%d bytes)" % (desc, len(d))}
+        plans.append(("plain_http/%s" % vname, build, extra or {}))
+
+    def own_ip():          # all of 127/8 is loopback: an address of our own for every scenario, so that port 80 is free on it
+        r = _os.urandom(3)
+        return "127.%d.%d.%d" % (1 + r[0] % 250, r[1], 1 + r[2] % 250)
+    ip80, ip80b = own_ip(), own_ip()
+    plain("default_port_80", lambda tgt: ("GET http://%s/index.html HTTP/1.1\r\nHost: %s\r\n\r\n" % (ip80, ip80)).encode(),
+          "'GET http://<ip>/index.html' WITHOUT a port: the tunnel goes to port 80", extra={"_target_host": ip80, "_target_port": 80})
+    plain("default_port_80_no_path", lambda tgt: ("GET http://%s HTTP/1.1\r\nHost: %s\r\n\r\n" % (ip80b, ip80b)).encode(),
+          "'GET http://<ip>' without port and path", extra={"_target_host": ip80b, "_target_port": 80})
+    plain("post_with_body", lambda tgt: ("POST http://127.0.0.1:%d/submit?a=b HTTP/1.1\r\nHost: 127.0.0.1:%d\r\nContent-Length: 300\r\n\r\n" % (tgt.port, tgt.port)).encode() + T.seeded_bytes(seed, "post-body", 300),
+          "POST with a 300-byte body")
+    plain("head_method", lambda tgt: ("HEAD http://127.0.0.1:%d/ HTTP/1.1\r\nHost: 127.0.0.1\r\n\r\n" % tgt.port).encode(), "HEAD request")
+    plain("no_path", lambda tgt: ("GET http://127.0.0.1:%d HTTP/1.1\r\nHost: 127.0.0.1\r\n\r\n" % tgt.port).encode(), "'GET http://host:port' without a path")
+    plain("query_without_path", lambda tgt: ("GET http://127.0.0.1:%d?x=1:2/3 HTTP/1.1\r\nHost: 127.0.0.1\r\n\r\n" % tgt.port).encode(), "'GET http://host:port?x=1:2/3' (query directly after the authority)")
+    plain("named_host", lambda tgt: ("GET http://localhost:%d/named HTTP/1.1\r\nHost: localhost\r\n\r\n" % tgt.port).encode(), "'GET http://localhost:port/named'")
+
+    def big_head(tgt):
+        h = "GET http://127.0.0.1:%d/big HTTP/1.1\r\nHost: 127.0.0.1\r\n" % tgt.port
+        i = 0
+        while len(h) < 3000:
+            h += "X-Pad-%02d: %s\r\n" % (i, "p" * 200)
+            i += 1
+        return (h + "\r\n").encode() + b"body-after-a-3k-head"
+    plain("head_3k/whole", big_head, "request head of 3 KiB (more than the 1024 bytes the client looks at), one segment")
+    plain("head_3k/split@1024", big_head, "request head of 3 KiB, split after byte 1024", segf=lambda d: seg_split(d, 1024, 0.03))
+    plain("head_3k/split@1500", big_head, "request head of 3 KiB, split after byte 1500", segf=lambda d: seg_split(d, 1500, 0.03))
+    plain("uri_1500", lambda tgt: ("GET http://127.0.0.1:%d/%s HTTP/1.1\r\nHost: 127.0.0.1\r\n\r\n" % (tgt.port, "u" * 1500)).encode(),
+          "request line with a 1500-character path (well formed; the client may decline what it cannot look at: 414)", may_refuse=True)
+    plain("ipv6_host", lambda tgt: ("GET http://[::1]:%d/v6 HTTP/1.1\r\nHost: [::1]:%d\r\n\r\n" % (tgt.port, tgt.port)).encode(),
+          "'GET http://[::1]:port/v6' (bracketed IPv6 host)", extra={"_target_host": "::1", "_needs_v6": True})
+
+    def connect(vname, hostf, desc, segf=None, extra=None):
+        def build(tgt):
+            hp = hostf(tgt)
+            d = ("CONNECT %s HTTP/1.1\r\nHost: %s\r\n\r\n" % (hp, hp)).encode()
+            return {"segments": (segf or (lambda x: [x]))(d), "reply": "connect", "to_target_first": b"", "describe": "HTTP CONNECT %s, %s" % (desc, vname)}
+        plans.append(("connect_more/%s" % vname, build, extra or {}))
+    connect("named_host", lambda tgt: "localhost:%d" % tgt.port, "to 'localhost:port'")
+    connect("ipv6_host", lambda tgt: "[::1]:%d" % tgt.port, "to '[::1]:port'", extra={"_target_host": "::1", "_needs_v6": True})
+    connect("ipv6_host_split_in_brackets", lambda tgt: "[::1]:%d" % tgt.port, "to '[::1]:port', split inside the brackets", segf=lambda d: seg_split(d, 10, 0.03),
+            extra={"_target_host": "::1", "_needs_v6": True})
+    connect("pause_1s_in_head", lambda tgt: "127.0.0.1:%d" % tgt.port, "with a pause of 1 s in the middle of the head", segf=lambda d: seg_split(d, len(d) // 2, 1.0))
+
+    def s5(vname, segf, desc):
+        def build(tgt):
+            g, r = T.socks5_handshake_bytes(T.LOOPBACK, tgt.port, 1)
+            return {"segments": segf(g, r), "reply": "socks5", "to_target_first": b"", "describe": "SOCKS5 CONNECT ipv4, %s" % desc}
+        plans.append(("socks5_ipv4/%s" % vname, build, {}))
+    s5("pause_1s_before_request", lambda g, r: [g, 1.0, r], "greeting, 1 s, request")
+    s5("pause_1s_inside_request", lambda g, r: [g + r[:5], 1.0, r[5:]], "greeting and half of the request, 1 s, the rest")
+    return plans
+
+
+# ------------------------------------------------------------------------------------------------
 # malformed / unsupported
 # ------------------------------------------------------------------------------------------------
 
@@ -298,6 +395,17 @@ def malformed_cases():
          "plain HTTP request whose host has 300 characters"),
         ("connect_host_300_chars", lambda tp: [("send", ("CONNECT %s:%d HTTP/1.1\r\nHost: x\r\n\r\n" % (long_host, tp)).encode())],
          "CONNECT whose host has 300 characters"),
+        # ---- dimension audit
+        ("socks5_only_userpass_method", lambda tp: [("send", b"\x05\x01\x02"), ("recv", 2, 1.0), ("send_later", b"\x05\x01\x00\x01" + ip + P(tp))],
+         "RECORDED ONLY: SOCKS5 greeting offering only username/password (02), then a CONNECT request all the same (RFC 1928 wants 05 FF; whether the client must refuse is not stated by the property)"),
+        ("socks5_udp_associate", lambda tp: [("send", b"\x05\x01\x00"), ("recv", 2, 1.0), ("send", b"\x05\x03\x00\x01" + ip + P(tp)), ("send_later", b"data-after-udp-associate")],
+         "SOCKS5 UDP ASSOCIATE (CMD=3) naming the trap target"),
+        ("socks5_unknown_atyp", lambda tp: [("send", b"\x05\x01\x00"), ("recv", 2, 1.0), ("send", b"\x05\x01\x00\x09" + ip + P(tp)), ("send_later", b"data-after-unknown-atyp")],
+         "SOCKS5 CONNECT with address type 9"),
+        ("tls_client_hello", lambda tp: [("send", T.tls_client_hello())], "a TLS ClientHello sent to the local port"),
+        ("http_head_never_ends", lambda tp: [("send", ("CONNECT 127.0.0.1:%d HTTP/1.1\r\n" % tp).encode() + b"X-Fill: " + b"f" * 9000)],
+         "CONNECT head of 9 KiB that never ends (no empty line)"),
+        ("http_garbage_line", lambda tp: [("send", b"\x00\x01\x02 this is not a request\r\n\r\n")], "bytes that are neither SOCKS5 nor HTTP"),
     ]
 
 
@@ -321,6 +429,8 @@ def run_malformed(name, spec, seed, steps_fn, desc):
     deadline = 3.0
     expect = {"request": desc, "connection_reaches_a_target": False, "app_connection": "closed, or answered with an error",
               "canary_afterwards": True, "processes_alive_no_panic": True}
+    if desc.startswith("RECORDED ONLY"):
+        expect = {"request": desc, "recorded": "what the client answers and whether a tunnel is opened", "canary_afterwards": True, "processes_alive_no_panic": True}
     try:
         dep = T.Deployment(dict(spec, seed=seed))
     except T.DeploymentError as e:
@@ -378,11 +488,13 @@ def run_malformed(name, spec, seed, steps_fn, desc):
             obs["app_connection"] = state
             obs["reply_is_error"] = _is_error_reply(reply)
             obs["trap_target_connections"] = trap.count()
+            recorded_only = desc.startswith("RECORDED ONLY")
             if trap.count():
                 c = trap.wait_conn(0, 0)
                 obs["trap_target_received"] = T.summarize(c.received()) if c else None
-                problems.append("a connection reached the trap target although the request is malformed/unsupported")
-            if state == "open" and not obs["reply_is_error"]:
+                if not recorded_only:
+                    problems.append("a connection reached the trap target although the request is malformed/unsupported")
+            if state == "open" and not obs["reply_is_error"] and not recorded_only:
                 problems.append("the app's connection is neither closed nor answered with an error within %.0f s (reply so far: %r)" % (deadline, reply[:40]))
         ok, hp, h = T.health(dep, udp=False)
         obs.update(h)
@@ -405,7 +517,7 @@ def suite_handshake(tier, seed, only):
         for kind in ("ipv4", "ipv6", "domain"):
             for vname, build in socks5_plans(kind, seed, tier, "%s/%s" % (cname, kind)):
                 name = "%s/socks5_%s/%s" % (base, kind, vname)
-                if not T.wanted(name, only):
+                if not T.wanted(name, only) or _lite_skip(tier, cname, name):
                     continue
                 if kind == "ipv6" and not v6:
                     results.append(T.result(name, spec, {"skipped": True}, {"skipped": "IPv6 loopback (::1) does not work in this sandbox"}, True, "skipped: no IPv6 loopback"))
@@ -414,11 +526,20 @@ def suite_handshake(tier, seed, only):
                 jobs.append(lambda name=name, sp=sp, build=build: run_positive(name, sp, seed, build))
         for vname, build in connect_plans(seed) + plain_plans():
             name = "%s/%s" % (base, vname)
-            if T.wanted(name, only):
+            if T.wanted(name, only) and not _lite_skip(tier, cname, name):
                 jobs.append(lambda name=name, build=build, spec=spec: run_positive(name, spec, seed, build))
+        for vname, build, extra in audit_plans(seed):
+            name = "%s/%s" % (base, vname)
+            if not T.wanted(name, only) or _lite_skip(tier, cname, name):
+                continue
+            if extra.get("_needs_v6") and not v6:
+                results.append(T.result(name, spec, {"skipped": True}, {"skipped": "IPv6 loopback (::1) does not work in this sandbox"}, True, "skipped: no IPv6 loopback"))
+                continue
+            sp = dict(spec, **extra)
+            jobs.append(lambda name=name, build=build, sp=sp: run_positive(name, sp, seed, build))
         for mname, steps_fn, desc in malformed_cases():
             name = "%s/malformed/%s" % (base, mname)
-            if T.wanted(name, only):
+            if T.wanted(name, only) and not _lite_skip(tier, cname, name):
                 jobs.append(lambda name=name, steps_fn=steps_fn, desc=desc, spec=spec: run_malformed(name, spec, seed, steps_fn, desc))
     for r in results:
         T.report_line(r)
